@@ -4,6 +4,7 @@ import Driver.MinerLedger
 import Driver.Cron
 import Driver.Multisig
 import Driver.EvmStorage
+import Driver.MinerControl
 
 /-- generic stdin/stdout loop over a pure handler -/
 partial def loop {σ : Type} (h : IO.FS.Stream) (out : IO.FS.Stream) (step : σ → String → σ × String)
@@ -25,4 +26,6 @@ def main (args : List String) : IO UInt32 := do
   | ["cron"] => loop stdin stdout Driver.Cron.handle (); return 0
   | ["multisig"] => loop stdin stdout Driver.Multisig.handle []; return 0
   | ["evmstorage"] => loop stdin stdout Driver.EvmStorage.handle (Driver.EvmStorage.State.init 0); return 0
+  | ["minercontrol"] =>
+    loop stdin stdout Driver.MinerControl.handle (BA.MinerControl.init 0 0 []); return 0
   | _ => IO.eprintln "usage: driver <model>"; return 2
